@@ -1121,5 +1121,12 @@ def rule_close_does_not_wait_for_the_peer(ctx):
 
 
 
+
+def rule_wait_graph(ctx):
+    """C11.p  the wait graph of the library's own tasks has no cycle (rules/waitgraph.py)."""
+    from .waitgraph import rule_wait_graph as r
+    r(ctx, 'C11.p')
+
+
 RULES = [('C11.a', rule_a), ('C11.b', rule_b), ('C11.b', rule_b2), ('C11.c', rule_c), ('C11.d', rule_d), ('C11.e', rule_e),
-         ('C11.f', rule_f), ('C11.g', rule_g), ('C11.h', rule_h), ('C11.i', rule_i), ('C11.f', rule_wrap), ('C11.g+C11.e', rule_plumbing), ('C11.j', rule_group_close), ('C11.k', rule_k), ('C11.l', rule_l), ('C11.m', rule_m), ('C11.k', rule_termination_event), ('C11.n', rule_no_wait_cycle), ('C11.o', rule_close_does_not_wait_for_the_peer)]
+         ('C11.f', rule_f), ('C11.g', rule_g), ('C11.h', rule_h), ('C11.i', rule_i), ('C11.f', rule_wrap), ('C11.g+C11.e', rule_plumbing), ('C11.j', rule_group_close), ('C11.k', rule_k), ('C11.l', rule_l), ('C11.m', rule_m), ('C11.k', rule_termination_event), ('C11.n', rule_no_wait_cycle), ('C11.o', rule_close_does_not_wait_for_the_peer), ('C11.p', rule_wait_graph)]
